@@ -15,8 +15,15 @@ ACTIVE_MODES = (1, 2)                          # NodeOnly, ListenAndNode
 
 # The C++ keeps a device disabled (interval 0) when it is re-enabled with exactly the period/offset it had before the disable.  The
 # oracle below states the property (a re-enabled device sends again) and reports that behaviour under the key `reenable-stays-off`;
-# the generator does not produce the pattern unless this switch is on (see the report to the lead).
-GEN_REENABLE_SAME = False
+# the generator produces the pattern only when this switch is on.
+GEN_REENABLE_SAME = True
+# confirmed defects that are not repaired (yet): key -> line printed as KNOWN-FINDING.  Reported to the lead (patch proposal
+# /tmp/fix_C12_1.diff); moves to known_findings.json or disappears with the fix.  Coq: Spec/HbSpec.v hb_reenable_refuted_stmt.
+PENDING_KNOWN = {
+    'reenable-stays-off': 'C12 reenable-stays-off: after SetHeartbeatIntervalAndOffset(0, x) (disable) a later call with exactly the stored interval and offset is '
+                          '"no change": SetPeriodAndOffset is not called, NextTime stays disabled and the device never sends a heartbeat again although a non-zero '
+                          'interval is configured (witness: NODE mode=1 ndev=1 src=22 q=40 t0=5000 hb=1 | H 0 0 ; T 80000 ; P ; H 60000 10000 ; T 70000 ; P ; T 70000 ; P)',
+}
 
 
 # ---------------------------------------------------------------------------------------------------------------------------------
@@ -541,6 +548,9 @@ def oracle_for(fs):
 
 
 def known(case, what):
+    key = what.split(':')[0]
+    if key in PENDING_KNOWN:
+        return PENDING_KNOWN[key]
     for k in vlib.known_findings('C12'):
         if what.startswith(k['key']):
             return k['line']
